@@ -153,6 +153,8 @@ def run(ctx):
     try:
         for i in range(ncase):
             kind = rng.choice(["Obs", "Obs", "List", "Array", "Array", "Corr", "Corr", "CorrN"])
+            if i == 0:
+                kind = "Corr"        # corpus: the listed finding (Corr tag equal to the string 'None') is exercised on every run
             try:
                 if kind == "Obs":
                     g = mk_group(1)
@@ -190,7 +192,7 @@ def run(ctx):
                             cont.append(np.array(g[t * 4:t * 4 + 4], dtype=object).reshape(2, 2))
                     pad = rng.choice([(0, 0), (0, 0), (1, 0), (0, 2)])
                     struct = pe.Corr(cont, padding=list(pad))
-                    ctag = rng.choice([None, None, "a corr tag", "None", "with \"quotes\""])
+                    ctag = rng.choice([None, None, "a corr tag", "None", "with \"quotes\""]) if i > 0 else "None"
                     if ctag is not None:
                         struct.tag = ctag
                     if rng.random() < 0.4:
